@@ -215,6 +215,50 @@ example : calcF 951868799000 = ⟨2000, 2, 29, 23, 59, 59, 2⟩ := by decide
 example : construct 2000 2 29 23 59 59 = some 951868799000 := by decide
 example : t0 ≤ -62135596800000 := by decide
 
+/-- the day number used by the code (days before the year + days before the month + day − 1) is Hinnant's
+`days_from_civil`, for every integer year and every month 1..12 -/
+theorem day_number_is_days_from_civil (y m d : Int) (hm : 1 ≤ m ∧ m ≤ 12) :
+    timeFromYearAsDays y + Cal.daysBeforeMonth y m.toNat + (d - 1) = Cal.daysFromCivil y m d := by
+  rw [← month_table_is_gregorian y m.toNat (by omega) (by omega), leap_macro_is_gregorian]
+  have hm' : m = 1 ∨ m = 2 ∨ m = 3 ∨ m = 4 ∨ m = 5 ∨ m = 6 ∨ m = 7 ∨ m = 8 ∨ m = 9 ∨ m = 10 ∨ m = 11 ∨ m = 12 := by omega
+  obtain ⟨v1, v2, v3, v4, v5, v6, v7, v8, v9, v10, v11, v12⟩ := mdays_vals (Cal.isLeap y)
+  have A1 := hinnant_era (y - 1)
+  have A2 := hinnant_era y
+  have B := tfy_march y
+  have C := march_step y (Cal.isLeap y) (by simp [Cal.isLeap])
+  unfold Cal.daysFromCivil
+  cases hL : Cal.isLeap y <;> rw [hL] at C v1 v2 v3 v4 v5 v6 v7 v8 v9 v10 v11 v12 <;>
+    simp only [Bool.false_eq_true, if_false, if_true] at C v3 v4 v5 v6 v7 v8 v9 v10 v11 v12 <;>
+    rcases hm' with rfl | rfl | rfl | rfl | rfl | rfl | rfl | rfl | rfl | rfl | rfl | rfl <;>
+    simp only [Int.reduceToNat, Int.reduceLE, Int.reduceGT, if_true, if_false, Int.reduceSub, Int.reduceAdd,
+      Int.reduceMul, Int.reduceDiv, v1, v2, v3, v4, v5, v6, v7, v8, v9, v10, v11, v12] <;> omega
+
+example : Cal.daysFromCivil 1970 1 1 = 0 ∧ Cal.daysFromCivil 2000 3 1 = 11017 ∧ Cal.daysFromCivil 1 1 1 = -719162 := by decide
+
+/-! ## instants between two milliseconds
+
+`Date` holds a `double`.  An instant `u` in **microseconds** (the double `u / 10^6`) is shown by `splitUTC` and by every
+format as the instant rounded to the nearest millisecond (`roundMs`, ties up) — date *and* time of day of the same
+rounded instant (before repo commit 4c81461 the date was taken from the unrounded instant; see `corpus/C19`). -/
+
+theorem roundMs_is_nearest (u : Int) : 1000 * roundMs u - 500 ≤ u ∧ u < 1000 * roundMs u + 500 := by
+  unfold roundMs; omega
+
+/-- `calc_is_calendar` for every double instant: the fields are the calendar fields of the nearest millisecond `r`,
+whose distance to the instant is at most half a millisecond -/
+theorem calc_is_calendar_us (u : Int) (hu : t0 ≤ roundMs u) :
+    Cal.Valid (calcU u).year (calcU u).month (calcU u).day (calcU u).hours (calcU u).minutes (calcU u).seconds ∧
+    timeFromYearAsDays (calcU u).year + Cal.daysBeforeMonth (calcU u).year (calcU u).month.toNat + ((calcU u).day - 1)
+      = roundMs u / 1000 / 86400 ∧
+    (calcU u).hours * 3600 + (calcU u).minutes * 60 + (calcU u).seconds = roundMs u / 1000 % 86400 ∧
+    (calcU u).weekDay = (roundMs u / 1000 / 86400 + 4) % 7 ∧
+    (1000 * roundMs u - 500 ≤ u ∧ u < 1000 * roundMs u + 500) :=
+  ⟨(calc_is_calendar (roundMs u) hu).1, (calc_is_calendar (roundMs u) hu).2.1, (calc_is_calendar (roundMs u) hu).2.2.1,
+    (calc_is_calendar (roundMs u) hu).2.2.2, roundMs_is_nearest u⟩
+
+/-- the witness of the repaired defect: 0.4 ms before midnight of 1970-01-02 is shown as 1970-01-02T00:00:00 (Friday) -/
+example : calcU 86399999600 = ⟨1970, 1, 2, 0, 0, 0, 5⟩ := by decide
+
 /-! ## parsing any string is total and in bounds
 
 In the model a read `rd s i` beyond the terminator (`i > length`) makes the whole parse return `none`;
@@ -281,6 +325,14 @@ theorem format_parse (t : Int) (h0 : t0 ≤ t) (h1 : t ≤ tMax) :
     parse (toUTCString .long t) = some (some (t - t % 1000)) ∧ parse (toUTCString .short t) = some (some (t - t % 1000)) ∧
     parse (toUTCString .http t) = some (some (t - t % 1000)) ∧ parse (toUTCString .full t) = some (some t) :=
   ⟨format_parse_long t h0 h1, format_parse_short t h0 h1, format_parse_http t h0 h1, format_parse_millis t h0 h1⟩
+
+/-- formatting a double instant and parsing the text back gives the nearest millisecond (FULL) resp. its second -/
+theorem format_parse_us (u : Int) (h0 : t0 ≤ roundMs u) (h1 : roundMs u ≤ tMax) :
+    parse (toUTCStringU .full u) = some (some (roundMs u)) ∧
+    parse (toUTCStringU .long u) = some (some (roundMs u - roundMs u % 1000)) ∧
+    parse (toUTCStringU .short u) = some (some (roundMs u - roundMs u % 1000)) ∧
+    parse (toUTCStringU .http u) = some (some (roundMs u - roundMs u % 1000)) :=
+  ⟨format_parse_millis _ h0 h1, format_parse_long _ h0 h1, format_parse_short _ h0 h1, format_parse_http _ h0 h1⟩
 
 example : toUTCString .full 951868799123 = [50, 48, 48, 48, 45, 48, 50, 45, 50, 57, 84, 50, 51, 58, 53, 57, 58, 53, 57, 46, 49, 50, 51, 90] := by decide
 
